@@ -4,6 +4,7 @@ import Gv.Oracle.Rand
 import Gv.Oracle.Sites
 import Gv.Oracle.Clean
 import Gv.Oracle.Stats
+import Gv.Oracle.FrameStats
 import Gv.Oracle.Dedup
 import Gv.Oracle.Mask
 import Gv.Oracle.Pure
@@ -28,4 +29,4 @@ import Gv.Oracle.Loop
 /-! oracle with every handler (see `Gv/Oracle/Loop.lean`) -/
 open Gv Gv.Oracle
 
-def main : IO Unit := runOracle [RegexOps.handle, CliPhaseOps.handle, CliSWOps.handle, CliSplitOps.handle, CliExtractOps.handle, CliPssmOps.handle, CliStatsSeqOps.handle, CliDivideOps.handle, SeqOps.handle, BagOps.handle, RandOps.handle, SitesOps.handle, CleanOps.handle, StatsOps.handle, DedupOps.handle, MaskOps.handle, SWOps.handle, Models.handle, PoolOps.handle, DistOps.handle, PureOps.handle, FmtOps.handle, WeightsOps.handle, DetOps.handle, ProtDistOps.handle, CliOps.handle]
+def main : IO Unit := runOracle [RegexOps.handle, CliPhaseOps.handle, CliSWOps.handle, CliSplitOps.handle, CliExtractOps.handle, CliPssmOps.handle, CliStatsSeqOps.handle, CliDivideOps.handle, SeqOps.handle, BagOps.handle, RandOps.handle, SitesOps.handle, CleanOps.handle, StatsOps.handle, FrameStatsOps.handle, DedupOps.handle, MaskOps.handle, SWOps.handle, Models.handle, PoolOps.handle, DistOps.handle, PureOps.handle, FmtOps.handle, WeightsOps.handle, DetOps.handle, ProtDistOps.handle, CliOps.handle]
